@@ -69,7 +69,7 @@ def _replay_search(a):
 def run(rep, tier, seed):
     from contracts.c01_bottleneck import all_contracts as b_all
     from contracts.c02_wasserstein import all_contracts as w_all
-    cs = [c for c in b_all(tier)[0] + w_all(tier)[0] if c.variant == "matching=True"]
+    cs = [c for c in b_all(tier)[0] + w_all(tier)[0] if c.variant.startswith("matching=True")]
     run_contracts(rep, cs, {}, tier=tier, pid="C06", replayers=[(r"bottleneck|wasserstein", _replay_search)])
     rep.assume("D3 Hopcroft-Karp: the two-way dict of a perfect matching is a bijection whose edges lie in the graph it was given; D4 linear_sum_assignment: column permutation",
                "D6 mask indexing and its enumeration facts (prefix counts) - meta-rules valid by induction; Sigma-compress / Sigma-extensionality meta-rules",
